@@ -402,6 +402,16 @@ BUILTINS = {
 }
 
 
+def _fx(name):
+    def f(ex, ctx, st, args, kwargs, node):
+        from . import effects
+        return getattr(effects, name)(ex, ctx, st, args, kwargs, node)
+    return f
+
+
+BUILTINS[_bi.open] = _fx("b_open")
+
+
 def call_type(ex, ctx, st, o, args, kwargs, node):
     if o is int:
         return b_int(ex, ctx, st, args, kwargs, node)
@@ -492,7 +502,38 @@ def x_isfinite(ex, ctx, st, args, kwargs, node):
     return mk_bool(True)
 
 
+path_abspath = z3.Function("os_path_abspath", S, S)
+path_dirname = z3.Function("os_path_dirname", S, S)
+path_join = z3.Function("os_path_join", S, S, S)
+
+
+def x_abspath(ex, ctx, st, args, kwargs, node):
+    s = _need_str(ex, ctx, st, args[0], node)
+    return mk_str(path_abspath(s.t))
+
+
+def x_dirname(ex, ctx, st, args, kwargs, node):
+    s = _need_str(ex, ctx, st, args[0], node)
+    return mk_str(path_dirname(s.t))
+
+
+def x_pathjoin(ex, ctx, st, args, kwargs, node):
+    if len(args) != 2:
+        raise Unsupported("os.path.join with other than two arguments")
+    a = _need_str(ex, ctx, st, args[0], node)
+    b = _need_str(ex, ctx, st, args[1], node)
+    return mk_str(path_join(a.t, b.t))
+
+
 EXTERNALS = {
+    "posix.replace": _fx("x_replace"),
+    "shutil.copyfile": _fx("x_copyfile"),
+    "posixpath.islink": _fx("x_islink"),
+    "genericpath.islink": _fx("x_islink"),
+    "genericpath.exists": _fx("x_exists"),
+    "posixpath.abspath": x_abspath,
+    "posixpath.dirname": x_dirname,
+    "posixpath.join": x_pathjoin,
     "rich.markup.escape": x_escape,
     "math.isfinite": x_isfinite,
 }
@@ -501,4 +542,7 @@ TRUSTED = {
     "esp_pylib.logger": "log.* calls: arguments are evaluated, the call itself has no effect on verified state",
     "rich.markup.escape": "total function str -> str (uninterpreted)",
     "math.isfinite": "True exactly for finite floats",
+    "posixpath.abspath": "os.path.abspath: total function str -> str (uninterpreted; the cwd does not change during a call)",
+    "posixpath.dirname": "os.path.dirname: total function str -> str (uninterpreted)",
+    "posixpath.join": "os.path.join(a, b): total function str x str -> str (uninterpreted)",
 }
